@@ -15,6 +15,7 @@ def allOps : List (String × (V → R V)) :=
   ++ lossOps
   ++ scheduleOps
   ++ serialOps
+  ++ loggingOps
 
 def dispatch (op : String) (a : V) : R V :=
   match allOps.find? (·.1 == op) with
